@@ -7,7 +7,7 @@ usage: sens/run.py [ID ...] [--name substr] [--tier quick]"""
 import json, os, subprocess, sys, time
 HERE = os.path.dirname(os.path.abspath(__file__))
 VERIF = os.path.dirname(HERE)
-WT = "/var/tmp/vmut"
+WT = os.environ.get("VERIF_WT", "/var/tmp/vmut")
 
 def sh(*a, **kw):
     return subprocess.run(a, capture_output=True, text=True, **kw)
